@@ -160,7 +160,8 @@ class C10(ValueCheck):
         d1 = B(res[1])
         self.cls("diff")
         # (2) absent symbol
-        if not is_exc(res[5]) and B(res[5]) != ["Integer", "0"]:
+        zero_ok = (["Integer", "0"], ["RealDouble", "0x0p+0"], ["RealDouble", "-0x0p+0"], ["ComplexDouble", "0x0p+0", "0x0p+0"])
+        if not is_exc(res[5]) and B(res[5]) not in (zero_ok if on.has_float(rec) else zero_ok[:1]):
             raise Violation("%s: diff w.r.t. a symbol that does not occur returned %s, not 0" % (desc, B(res[5])), {"recipe": rec})
         # (3) cache
         if res[3] is False and "nan" not in str(res[1]):
@@ -221,7 +222,14 @@ def m_acosh_derivative_branch(case, v):
     return "acosh" in engine.sx(case["e"]) and "value mismatch" in v.msg
 
 
-C10.matchers = {"acosh_derivative_branch": m_acosh_derivative_branch}
+def m_constant_at_singular_rule(case, v):
+    """KF-C10-02: the chain rule multiplies the outer rule by the inner derivative 0; where the outer rule is singular
+    (acosh(-1), acsch(I), asin(1) ...) 0*zoo gives nan instead of 0"""
+    return "does not occur returned ['NaN']" in v.msg
+
+
+C10.matchers = {"acosh_derivative_branch": m_acosh_derivative_branch,
+                "constant_at_singular_rule": m_constant_at_singular_rule}
 
 
 if __name__ == "__main__":
